@@ -123,6 +123,11 @@ def Params.has (p : Params) (k : Key) : Bool := (p.get k).isSome
 def Params.erase (p : Params) (k : Key) : Params := p.filter (fun kv => kv.1 ≠ k)
 /-- `p[k] = v` -/
 def Params.set (p : Params) (k : Key) (v : Value) : Params := (k, v) :: p.erase k
+/-- truth value of `p.get(k, False)` -/
+def Params.flag (p : Params) (k : Key) : Bool :=
+  match p.get k with
+  | some v => v.truthy
+  | none => false
 /-- `d = base.copy(); d.update(over)` -/
 def Params.update (base over : Params) : Params := over ++ base.filter (fun kv => !over.has kv.1)
 
@@ -358,7 +363,7 @@ structure ASpec where
 /-- `AdapterSpecification.parse` after `parse_search_parameters` and `expand_braces`: `sq` is the expanded specification
     (still with `^`, `$`, `X`), `parameters0` the parsed search parameters -/
 def aspecCore (name : Option Str) (sq : Str) (parameters0 : Params) (t : AType) : Except Err ASpec :=
-  let rightmost : Bool := match parameters0.get .rightmost with | some v => v.truthy | none => false
+  let rightmost : Bool := parameters0.flag .rightmost
   let parameters := parameters0.erase .rightmost
   if sq.all (· = 'X') then .ok ⟨name, none, sq, [], t, false⟩
   else
@@ -451,7 +456,7 @@ def construct (cls : Cls) (sequence : Str) (name : Option Str) (kw : Params) : E
   let anchored := cls = .prefix ∨ cls = .suffix
   if kw.any (fun kv => !kwAllowed cls kv.1) then .error .typeError
   else
-    let forceAnywhere : Bool := match kw.get .forceAnywhere with | some v => v.truthy | none => false
+    let forceAnywhere : Bool := kw.flag .forceAnywhere
     let maxErrors := (kw.get .maxErrors).getD (.float ⟨1, 1⟩)
     -- `PrefixAdapter`/`SuffixAdapter`: `kwargs["min_overlap"] = len(sequence)`
     let minOverlap := if anchored then .int sequence.length else (kw.get .minOverlap).getD (.int 3)
@@ -490,7 +495,7 @@ def makeNotLinked (spec : Str) (name : Option Str) (t : AType) (sp : Params) : E
   | .error e => .error e
   | .ok a =>
     let cls := a.cls
-    let anyw : Bool := match a.parameters.get .anywhere with | some v => v.truthy | none => false
+    let anyw : Bool := a.parameters.flag .anywhere
     let ps := a.parameters.erase .anywhere
     let ps := if anyw ∧ (cls = .front ∨ cls = .back ∨ cls = .rightmostFront) then ps ++ [(.forceAnywhere, .bool true)] else ps
     if ps.has .required then .error .requiredOutsideLinked
